@@ -117,6 +117,11 @@ func runProperty(w *World, cs *Contracts, mods *ModAnalysis, prop, tier string, 
 			out.assumptions["trusted contract (body not verified): "+n+" "+strings.Join(fc.Notes, "; ")] = true
 			continue
 		}
+		for _, note := range fc.Notes {
+			if strings.HasPrefix(note, "ASSUMED") {
+				out.assumptions[note] = true
+			}
+		}
 		fr := encodeFunc(w, cs, mods, n)
 		for _, e := range fr.Errs {
 			out.errs = append(out.errs, e)
